@@ -55,7 +55,7 @@ def case(draw, tier):
          "presorted": draw(st.integers(0, 3)) == 0,
          "form": draw(st.sampled_from(["lists", "lists", "lists"] + catgen.FORMS))}
     if len(tbl) > 1:
-        c["blowup"] = draw(scale.blowup(odds=30, sizes=[130, 300, 600, 1030], wide=False))
+        c["blowup"] = scale.derive(c, odds=30, sizes=[130, 300, 600, 1030], wide=False)
         c["big_buffersize"] = draw(st.sampled_from([None, 1000, 7, "n/300", "n/130", "n/2"]))
     if op == "conflicts":
         c["missing"] = draw(st.sampled_from([None, None] + p))
